@@ -625,11 +625,9 @@ class Beam(_Simu):
             values = Sigma_e[:, index]
 
         elif result in ["ux'", "rx'", "ry'", "rz'"]:
-            coef = 1 if result == "Exx" else 1 / 2
-
             Epsilon_e = self._Calc_Epsilon_e_pg(self.displacement).mean(1)
             index = self._indexResult(result)
-            values = Epsilon_e[:, index] * coef
+            values = Epsilon_e[:, index]
 
         else:
             Terminal.MyPrintError(f"The result '{result}' is not implemented yet.")
@@ -646,7 +644,23 @@ class Beam(_Simu):
 
         dim = self.dim
 
-        if "ux" in result or "fx" in result:
+        if result.endswith("'"):
+            # generalised strains, see _Calc_Epsilon_e_pg
+            strains = {1: ["ux'"], 2: ["ux'", "rz'"], 3: ["ux'", "rx'", "ry'", "rz'"]}
+            if result not in strains[dim]:
+                raise ValueError("result error")
+            return strains[dim].index(result)
+        elif result in ["Sxx", "Syy", "Szz", "Syz", "Sxz", "Sxy"]:
+            # stresses, see _Calc_Sigma_e_pg
+            stresses = {
+                1: ["Sxx"],
+                2: ["Sxx", "Syy", "Sxy"],
+                3: ["Sxx", "Syy", "Szz", "Syz", "Sxz", "Sxy"],
+            }
+            if result not in stresses[dim]:
+                raise ValueError("result error")
+            return stresses[dim].index(result)
+        elif "ux" in result or "fx" in result:
             return 0
         elif ("uy" in result or "fy" in result) and dim >= 2:
             return 1
